@@ -161,4 +161,29 @@ theorem addVariance_symm {n d : Nat} (c : Cov ℝ) (x : Mat ℝ n d) (j : ℝ) (
     rw [hK]
     exact (gram_symm c x).add (noiseOf_symm n M j)
 
+/-! ### the DTC algebra, for an arbitrary right-hand side -/
+
+/-- If `L A = K_uf`, `LB LBᵀ = A Aᵀ + N` and `W = L⁻ᵀ (LB LBᵀ)⁻¹ A R`, then
+    `(L N Lᵀ + K_uf K_fu) W = K_uf R`. -/
+theorem dtc_solve {n m p : Nat} {L LB : Mat ℝ m m} {A : Mat ℝ m n} {Kuf : Mat ℝ m n} {LLB : Mat ℝ m m}
+    {N : Matrix (Fin m) (Fin m) ℝ} (hL : LowerNonsing L) (hLA : toM L * toM A = toM Kuf)
+    (hLB : IsCholOf LB LLB) (hLLB : toM LLB = toM A * (toM A)ᵀ + N) (hN : N.IsSymm) (R : Mat ℝ n p) :
+    (toM L * N * (toM L)ᵀ + toM Kuf * (toM Kuf)ᵀ) * toM (lmWeights L LB A R) = toM Kuf * toM R := by
+  have hsymB : (toM LLB).IsSymm := by
+    rw [hLLB]
+    have hAA : (toM A * (toM A)ᵀ).IsSymm := by
+      rw [Matrix.IsSymm, Matrix.transpose_mul, Matrix.transpose_transpose]
+    exact hAA.add hN
+  have hz : toM LLB * toM (choSolveM LB (matMul A R)) = toM A * toM R := by
+    rw [choSolveM_mul hLB hsymB, matMul_toM]
+  have hLtW : (toM L)ᵀ * toM (lmWeights L LB A R) = toM (choSolveM LB (matMul A R)) :=
+    solveUpperTM_mul hL _
+  rw [← hLA, Matrix.transpose_mul]
+  calc (toM L * N * (toM L)ᵀ + toM L * toM A * ((toM A)ᵀ * (toM L)ᵀ)) * toM (lmWeights L LB A R)
+      = toM L * ((toM A * (toM A)ᵀ + N) * ((toM L)ᵀ * toM (lmWeights L LB A R))) := by
+        simp only [Matrix.add_mul, Matrix.mul_add, Matrix.mul_assoc]
+        rw [add_comm]
+    _ = toM L * (toM LLB * toM (choSolveM LB (matMul A R))) := by rw [hLtW, hLLB]
+    _ = toM L * toM A * toM R := by rw [hz, Matrix.mul_assoc]
+
 end Mellon
